@@ -40,16 +40,25 @@ func tokenize(s string) []tok {
 	return out
 }
 
-// visible removes SGR sequences: what a terminal shows.
+// visible removes SGR sequences: what a terminal shows. A byte that is not part
+// of a valid UTF-8 sequence is shown as ONE replacement glyph (one column): it
+// is normalised to U+FFFD here, so that a renderer may pass the raw byte through
+// or substitute U+FFFD for it (the visible result is the same), and so that one
+// such byte is one rune of the result (see Assumptions).
 func visible(s string) string {
-	if !strings.Contains(s, "\x1b") {
+	if !strings.Contains(s, "\x1b") && utf8.ValidString(s) {
 		return s
 	}
 	var sb strings.Builder
 	for _, t := range tokenize(s) {
-		if !t.sgr {
-			sb.WriteString(t.s)
+		if t.sgr {
+			continue
 		}
+		if len(t.s) == 1 && t.s[0] >= 0x80 {
+			sb.WriteRune(utf8.RuneError) // tokenize cuts an undecodable byte off alone
+			continue
+		}
+		sb.WriteString(t.s)
 	}
 	return sb.String()
 }
@@ -212,8 +221,8 @@ func alignOffsets(lines []string, cells [][]wcell) []int {
 					}
 					continue
 				}
-				ct := []rune(c.text)
-				if len(seg) < len(ct)+1 || string(seg[:len(ct)]) != c.text {
+				ct := []rune(c.text) // rune by rune: an undecodable byte is one U+FFFD on both sides
+				if len(seg) < len(ct)+1 || !runesEqual(seg[:len(ct)], ct) {
 					ok = false
 					break
 				}
@@ -240,6 +249,18 @@ func alignOffsets(lines []string, cells [][]wcell) []int {
 		return off
 	}
 	return nil
+}
+
+func runesEqual(a, b []rune) bool {
+	if len(a) != len(b) {
+		return false
+	}
+	for i := range a {
+		if a[i] != b[i] {
+			return false
+		}
+	}
+	return true
 }
 
 func cellsOf(ss ...string) []wcell {
